@@ -410,7 +410,7 @@ func checkWindow(pl *pool, win *ssa.Function) {
 							again := false
 							for _, lt := range l.Latch {
 								for bi, sb := range lt.Succs {
-									if sb == l.Header && wcs.Satisfiable(and(fire, wcs.EdgeCond(lt, bi))) {
+									if way := and(fire, wcs.EdgeCond(lt, bi)); sb == l.Header && wcs.Satisfiable(way) && !flagDownOnWay(wcs, l, lt, way, b) {
 										again = true
 									}
 								}
@@ -425,6 +425,48 @@ func checkWindow(pl *pool, win *ssa.Function) {
 	}
 	// callers
 	pl.whoMayCall("C07.window", win, "(*gcpPicker).detectUnresponsive")
+}
+
+// flagDownOnWay: the way round the loop (through latch lt, under condition way) carries the constant false into a boolean
+// loop variable that the block b can only be reached with true: the next iteration cannot reach b (a `for … && fits`
+// loop whose helper reports "does not fit" through its second result).
+func flagDownOnWay(cs *CondSpace, l *Loop, lt *ssa.BasicBlock, way Bits, b *ssa.BasicBlock) bool {
+	pi := -1
+	for i, pb := range l.Header.Preds {
+		if pb == lt {
+			pi = i
+		}
+	}
+	if pi < 0 {
+		return false
+	}
+	for _, in := range l.Header.Instrs {
+		ph, ok := in.(*ssa.Phi)
+		if !ok {
+			break
+		}
+		if !isBool(ph.Type()) {
+			continue
+		}
+		need, known := cs.EvalValue(ph)
+		if !known {
+			continue
+		}
+		if imp, _ := cs.Implies(cs.ReachBlock(b), need); !imp {
+			continue
+		}
+		vals := cs.ResolveUnder(ph.Edges[pi], way)
+		down := len(vals) > 0
+		for _, v := range vals {
+			if cst, isC := v.(*ssa.Const); !isC || cst.Value == nil || cst.Value.String() != "false" {
+				down = false
+			}
+		}
+		if down {
+			return true
+		}
+	}
+	return false
 }
 
 func valueOf(in ssa.Instruction) ssa.Value {
